@@ -78,6 +78,17 @@ var histProgs = []string{
 	"numbers(a%9+3).binning(0,2,3,x->x,x->1+b).string()",
 	"let lp=createLowPass(\"f\", p->p.t, p->p.v, 2); numbers(a%5+2).map(i->{t:i,v:i*b}).iirApply(lp).map(p->p.f).last()",
 	"goto(a%3).state+{state:b}.state",
+	// views of constant lists extended afterwards
+	"let c=numbers(9).map(x->x*2); c[a%9]+c.top(a%9).append(0-1).size()*1000+c[8]",
+	"let c=numbers(9).map(x->x*2); c.size()+c.skip(a%5).append(b).last()+c.append(a).last()*1000",
+	"let c=[1,2,3].append(4); c.top(a%4).append(b).string()+c.string()",
+	"let c=numbers(6).map(x->x+1).eval(); c.reverse().append(a).first()+c.order(x->0-x).append(b).last()+c[a%6]",
+	"let c=numbers(8).map(x->x*x); (c.top(a%8)+c.skip(b)).append(a).size()+c[a%8]",
+	"let m={p:1,q:2}+{r:3}; (m+{s:a}).s+(m+{t:b}).t+m.size()",
+	"let m={p:1,q:2}; m.replace(x->{p:a}).replace(x->{p:b}).p+m.p+m.replace(x->{q:a}).q",
+	"let s=\"a,b,c\".split(\",\"); s.append(\"x\"+a).size()+s.size()+s.top(a%3).append(\"y\").size()",
+	"let c=numbers(5).map(x->[x,x+1]); c[a%5].append(b).size()+c[a%5].size()",
+	"let c=numbers(7).map(x->x+1); (c = numbers(a%9).map(x->x+1)) | (c.top(a%7) = numbers(a%7).map(x->x+1))",
 }
 
 func genHistArgs(r *rng) []Arg {
